@@ -171,6 +171,61 @@ theorem C17_context_reaches_offset (input : Bytes) (atLeast fb : Nat) :
       have := le_boundaryDown input input.length (Or.inl hnone) (min input.length (max fb a)) (by omega)
       omega
 
+/-- C17_report_line_marked: for EVERY source and EVERY consistent report (context start and offset carry
+    their true line numbers, context start ≤ offset), if the reported line holds a byte that is not
+    white space at or before the failing byte (position `q` behind the context start, on the same line
+    as the failing byte), then the excerpt has an entry that is marked and labelled with the reported
+    line. Together with `C17_at_most_one_marked` and `C17_excerpt_sound`: exactly one line is marked, it
+    carries the reported number, and its text is (a prefix of) the source line of that number. -/
+theorem C17_report_line_marked (src : Bytes) (ctxOff ctxLine off line q : Nat) (b : UInt8)
+    (hco : ctxOff ≤ off)
+    (hc : ctxLine = 1 + countNL (src.take ctxOff)) (hl : line = 1 + countNL (src.take off))
+    (hq : q ≤ off - ctxOff) (hb : (src.drop ctxOff)[q]? = some b) (hws : isWs b = false)
+    (hsame : countNL ((src.drop ctxOff).take q) = countNL ((src.drop ctxOff).take (off - ctxOff))) :
+    ∃ e ∈ contextualize src ctxOff ctxLine off line, e.marked = true ∧ e.label = line := by
+  unfold contextualize excerpt
+  generalize hrest : src.drop ctxOff = rest at hb hsame
+  have hqlen : q < rest.length := by
+    rcases Nat.lt_or_ge q rest.length with h | h
+    · exact h
+    · rw [List.getElem?_eq_none h] at hb; cases hb
+  -- the context is `rest.take m` for some `m > q`
+  have hm : ∃ m, q < m ∧ untilNextUnindented rest (off - ctxOff + 1) 300 = rest.take m := by
+    obtain ⟨n, hn, hcase⟩ := C17_context_reaches_offset rest (off - ctxOff + 1) 300
+    have hqn : q < n := by omega
+    rcases hcase with h | h
+    · exact ⟨n, hqn, h⟩
+    · have hbn : (rest.take n)[q]? = some b := by rw [List.getElem?_take]; simp [hqn, hb]
+      obtain ⟨m, hqm, hm⟩ := trimEnd_keeps (rest.take n) q b hbn hws
+      refine ⟨min m n, by omega, ?_⟩
+      rw [h, hm, List.take_take]
+  obtain ⟨m, hqm, hctx⟩ := hm
+  rw [hctx]
+  have hbm : (rest.take m)[q]? = some b := by rw [List.getElem?_take]; simp [hqm, hb]
+  have hnl : (b == 10) = false := by
+    cases h10 : (b == 10) with
+    | false => rfl
+    | true => have : b = 10 := by simpa using h10
+              subst this; simp [isWs] at hws
+  obtain ⟨l, hl', hmem⟩ := splitLines_line_of_pos (rest.take m) q b hbm hnl
+  have hblank : blank l = false := by
+    cases hbl : blank l with
+    | false => rfl
+    | true =>
+      have := (List.all_eq_true.mp hbl) b hmem
+      rw [hws] at this; cases this
+  have hk : countNL ((rest.take m).take q) = countNL (rest.take (off - ctxOff)) := by
+    rw [List.take_take, Nat.min_eq_left (by omega)]; exact hsame
+  rw [hk] at hl'
+  refine ⟨_, entriesFrom_complete ctxLine line _ 0 _ l hl' hblank, ?_⟩
+  have hlabel : ctxLine + (0 + countNL (rest.take (off - ctxOff))) = line := by
+    rw [hl, hc]
+    have : off = ctxOff + (off - ctxOff) := by omega
+    rw [this, take_add, countNL_append, hrest]
+    simp only [Nat.add_sub_cancel_left]
+    omega
+  simp only [hlabel, beq_self_eq_true, and_self]
+
 /-- the witness of the defect repaired by `d0f95fd` ("A\n\nB {\n x\n}\n E\n", context start at the
     first line feed, error at `B`, line 3): the old fallback trimmed the two line feeds the context
     begins with, labelled `B {` with 1 and marked `}`; the repaired one marks `B {` as line 3. -/
@@ -184,5 +239,10 @@ theorem C17_old_excerpt_counterexample :
 
 /-- non-vacuity of C17_excerpt_sound: the witness report is consistent and its excerpt has entries -/
 example : (1 : Nat) = 1 + countNL (witness.take 1) ∧ (contextualize witness 1 1 3 3).length = 4 := by decide
+
+/-- non-vacuity of C17_report_line_marked: the witness report meets every hypothesis (q = 2, the `B`) -/
+example : (1 : Nat) ≤ 3 ∧ (1 : Nat) = 1 + countNL (witness.take 1) ∧ (3 : Nat) = 1 + countNL (witness.take 3) ∧ (2 : Nat) ≤ 3 - 1 ∧
+    (witness.drop 1)[2]? = some 66 ∧ isWs 66 = false ∧
+    countNL ((witness.drop 1).take 2) = countNL ((witness.drop 1).take (3 - 1)) := by decide
 
 end Props.C17
